@@ -1,4 +1,5 @@
 use crate::net::EventLoops;
+use crate::syscall::unix::{RECV_TIME_LIMIT, SEND_TIME_LIMIT};
 use std::ffi::c_int;
 
 trait CloseSyscall {
@@ -22,6 +23,9 @@ struct NioCloseSyscall<I: CloseSyscall> {
 impl<I: CloseSyscall> CloseSyscall for NioCloseSyscall<I> {
     extern "C" fn close(&self, fn_ptr: Option<&extern "C" fn(c_int) -> c_int>, fd: c_int) -> c_int {
         _ = EventLoops::del_event(fd);
+        // the number may be handed out again: a later socket must not inherit the cached limits
+        _ = SEND_TIME_LIMIT.remove(&fd);
+        _ = RECV_TIME_LIMIT.remove(&fd);
         self.inner.close(fn_ptr, fd)
     }
 }
